@@ -126,6 +126,10 @@ class Verdicts:
             print(f"KNOWN-FINDING: property={self.prop} {e['what']} [{fid}; {n} case(s)]")
         for d in self.divergences[:3]:
             print(f"DIVERGENCE property={self.prop} what={d.get('what')} {json.dumps(jsonable(d), sort_keys=True)[:160]}")
+        if self.divergences and os.environ.get("VERIF_DEBUG"):
+            dp = OUT / ".work" / f"divergences-{self.prop}.json"
+            dp.parent.mkdir(parents=True, exist_ok=True)
+            dp.write_text(json.dumps(jsonable(self.divergences), indent=1, sort_keys=True))
         paths = []
         seen = set()
         for v in self.violations:
